@@ -583,10 +583,11 @@ def handle (j : Json) : Except String Json := do
     let files ← (← (← j.getObjVal? "files").getArr?).toList.mapM (fun f => do
       let items ← (← (← f.getObjVal? "items").getArr?).toList.mapM parseItem
       pure (← getStr f "name", items))
+    let fd := Spec.forDefaults (files.map (·.2))
     let out := files.map (fun f =>
       Json.mkObj [("name", jStr (Engine.fileName (Engine.fnDictOf smname) f.1)),
                   ("rendered", jStrs (Spec.renderFile f.2)),
-                  ("text", match Spec.expandFile globals m ut f.2 with
+                  ("text", match Spec.expandFile globals m fd ut f.2 with
                     | some ls => jStr (Spec.fileText ls)
                     | none => Json.null)])
     pure (Json.mkObj [("files", Json.arr out.toArray)])
